@@ -113,6 +113,14 @@ def cdominates (a b : CFit α) : Bool :=
   else if violates b then true
   else dominatesLoop a.wvalues b.wvalues false
 
+/-- `ConstrainedFitness.dominates(other, obj)` as the class is now (repair F38: the objective slice of
+`Fitness.dominates` is accepted and handed to the base class); `cdominates` is the case `obj = slice(None)`. -/
+def cdominatesObj (a b : CFit α) (idxA idxB : List Nat) : Bool :=
+  if violates a && violates b then false
+  else if violates a then false
+  else if violates b then true
+  else dominates a.base b.base idxA idxB
+
 /-- `del fitness.values` for the constrained class also clears the flags. -/
 def cdelValues : CFit α := ⟨[], none⟩
 
